@@ -113,6 +113,76 @@ mod tests {
         0xc5, 0x03, 0x21, 0xb2, 0x9a, 0x58, 0xd4, 0x7c, 0xf6, 0x1e, 0x00u8,
     ];
 
+    /// A brotli stream that stores `len` bytes of `fill` in uncompressed meta-blocks of at most
+    /// 65536 bytes each (RFC 7932, section 9.2).
+    fn stored_stream(len: usize, fill: u8) -> Vec<u8> {
+        // WBITS = 16 (one 0 bit); every meta-block header below starts on bit 1 of its first byte
+        // only for the first block, so emit headers bit by bit.
+        let mut out: Vec<u8> = vec![];
+        let mut nbits = 0usize;
+        let put = |out: &mut Vec<u8>, nbits: &mut usize, value: u32, bits: usize| {
+            for k in 0..bits {
+                if *nbits % 8 == 0 {
+                    out.push(0);
+                }
+                if (value >> k) & 1 != 0 {
+                    let last = out.len() - 1;
+                    out[last] |= 1 << (*nbits % 8);
+                }
+                *nbits += 1;
+            }
+        };
+        put(&mut out, &mut nbits, 0, 1);
+        let mut remaining = len;
+        while remaining > 0 {
+            let n = remaining.min(65536);
+            put(&mut out, &mut nbits, 0, 1); // ISLAST = 0
+            put(&mut out, &mut nbits, 0, 2); // MNIBBLES = 4
+            put(&mut out, &mut nbits, (n - 1) as u32, 16); // MLEN - 1
+            put(&mut out, &mut nbits, 1, 1); // ISUNCOMPRESSED
+            while nbits % 8 != 0 {
+                put(&mut out, &mut nbits, 0, 1);
+            }
+            out.extend(std::iter::repeat(fill).take(n));
+            nbits = out.len() * 8;
+            remaining -= n;
+        }
+        put(&mut out, &mut nbits, 3, 2); // ISLAST = 1, ISLASTEMPTY = 1
+        out
+    }
+
+    #[test]
+    fn brotli_decode_grows_output_up_to_the_limit() {
+        // Larger than any initial output buffer: the output has to be accumulated in pieces.
+        let len = 200_000;
+        let stream = stored_stream(len, 0x5a);
+        assert_eq!(
+            Ok(vec![0x5au8; len]),
+            BuiltInBrotliDecoder.decode(&stream, None, len)
+        );
+        assert_eq!(
+            Ok(vec![0x5au8; len]),
+            BuiltInBrotliDecoder.decode(&stream, None, u32::MAX as usize)
+        );
+        assert_eq!(
+            Err(DecodeError::MaxSizeExceeded),
+            BuiltInBrotliDecoder.decode(&stream, None, len - 1)
+        );
+        assert_eq!(
+            Err(DecodeError::MaxSizeExceeded),
+            BuiltInBrotliDecoder.decode(&stream, None, 65536)
+        );
+    }
+
+    #[test]
+    fn brotli_decode_small_output_with_huge_limit() {
+        // The limit is an upper bound announced by the patch, not an amount to allocate.
+        assert_eq!(
+            Ok(TARGET.to_vec()),
+            BuiltInBrotliDecoder.decode(&NO_DICT_PATCH, None, u32::MAX as usize)
+        );
+    }
+
     #[test]
     fn brotli_decode_with_shared_dict() {
         assert_eq!(
